@@ -241,6 +241,167 @@ func (g *gen) c09Sites() {
 	}
 	g.p("].\n\n")
 	g.c09Tables()
+	g.c09SessionMaps()
+	g.c09ReceiptsOrder()
+}
+
+// c09SessionMaps lists every access (read, write, delete) of the session's map
+// of pending requests in session.go and whether it lies between a Lock and an
+// Unlock of the map's mutex in the statement list that contains it (a deferred
+// Unlock after the Lock counts). The serve loop reads the map while request
+// helpers running in other goroutines write it: an access outside the lock
+// region makes the runtime abort the process.
+func (g *gen) c09SessionMaps() {
+	f := g.parse("session.go")
+	g.p("\n(* ---- accesses of Session.sentStanzas and whether they are inside a sentStanzaMutex region ---- *)\n")
+	g.p("Definition session_map_accesses : list (bytes * bytes * bool) := [ (* (function, access, locked) *)\n")
+	type acc struct {
+		fn, expr string
+		locked bool
+	}
+	var accs []acc
+	if f != nil {
+		isMutexCall := func(st ast.Stmt, name string) bool {
+			var call *ast.CallExpr
+			switch x := st.(type) {
+			case *ast.ExprStmt:
+				call, _ = x.X.(*ast.CallExpr)
+			case *ast.DeferStmt:
+				if name == "Unlock" {
+					call = x.Call
+				}
+			}
+			if call == nil {
+				return false
+			}
+			sel, is := call.Fun.(*ast.SelectorExpr)
+			if !is || sel.Sel.Name != name {
+				return false
+			}
+			inner, is := sel.X.(*ast.SelectorExpr)
+			return is && inner.Sel.Name == "sentStanzaMutex"
+		}
+		touches := func(n ast.Node) (string, bool) {
+			found := ""
+			ast.Inspect(n, func(m ast.Node) bool {
+				if _, isFn := m.(*ast.FuncLit); isFn {
+					return false // a closure's body is a statement list of its own
+				}
+				switch x := m.(type) {
+				case *ast.IndexExpr:
+					if sel, is := x.X.(*ast.SelectorExpr); is && sel.Sel.Name == "sentStanzas" {
+						found = c09Expr(g.fset, x)
+					}
+				case *ast.CallExpr:
+					if id, is := x.Fun.(*ast.Ident); is && (id.Name == "delete" || id.Name == "len") && len(x.Args) >= 1 {
+						if sel, is := x.Args[0].(*ast.SelectorExpr); is && sel.Sel.Name == "sentStanzas" {
+							found = c09Expr(g.fset, x)
+						}
+					}
+				}
+				return true
+			})
+			return found, found != ""
+		}
+		for _, d := range f.Decls {
+			fd, is := d.(*ast.FuncDecl)
+			if !is || fd.Body == nil {
+				continue
+			}
+			fn := c09FuncName(fd)
+			// every statement list of the function, closures included
+			ast.Inspect(fd.Body, func(n ast.Node) bool {
+				var list []ast.Stmt
+				switch x := n.(type) {
+				case *ast.BlockStmt:
+					list = x.List
+				case *ast.CaseClause:
+					list = x.Body
+				case *ast.CommClause:
+					list = x.Body
+				}
+				locked := false
+				for _, st := range list {
+					if isMutexCall(st, "Lock") {
+						locked = true
+						continue
+					}
+					if _, isDefer := st.(*ast.DeferStmt); !isDefer && isMutexCall(st, "Unlock") {
+						locked = false
+						continue
+					}
+					// only statements that touch the map directly (not through a nested block)
+					switch st.(type) {
+					case *ast.IfStmt, *ast.ForStmt, *ast.RangeStmt, *ast.SwitchStmt, *ast.TypeSwitchStmt, *ast.SelectStmt, *ast.BlockStmt:
+						if is, isIf := st.(*ast.IfStmt); isIf {
+							if is.Init != nil {
+								if e, ok := touches(is.Init); ok {
+									accs = append(accs, acc{fn, e, locked})
+								}
+							}
+							if e, ok := touches(is.Cond); ok {
+								accs = append(accs, acc{fn, e, locked})
+							}
+						}
+						continue
+					case *ast.DeferStmt, *ast.GoStmt:
+						continue
+					}
+					if e, ok := touches(st); ok {
+						accs = append(accs, acc{fn, e, locked})
+					}
+				}
+				return true
+			})
+		}
+	}
+	for i, a := range accs {
+		sep := ";"
+		if i+1 == len(accs) {
+			sep = ""
+		}
+		g.p("  (hex \"%s\", hex \"%s\", %v)%s (* %s: %s *)\n", hexOf([]byte(a.fn)), hexOf([]byte(a.expr)), a.locked, sep, a.fn, a.expr)
+	}
+	g.p("].\n")
+	if len(accs) < 3 {
+		g.errs = append(g.errs, "session.go: fewer than three accesses of sentStanzas found")
+	}
+}
+
+// c09ReceiptsOrder: in receipts.Handler.HandleMessage the entry of the table of
+// pending receipts is deleted before the sender is signalled. The signal channel
+// has room for one token; it never fills up only because a second receipt for
+// the same id no longer finds the entry.
+func (g *gen) c09ReceiptsOrder() {
+	f := g.parse("receipts/receipts.go")
+	ok := false
+	if f != nil {
+		for _, d := range f.Decls {
+			fd, is := d.(*ast.FuncDecl)
+			if !is || fd.Body == nil || c09FuncName(fd) != "Handler.HandleMessage" {
+				continue
+			}
+			var del, send token.Pos
+			ast.Inspect(fd.Body, func(n ast.Node) bool {
+				switch x := n.(type) {
+				case *ast.CallExpr:
+					if id, is := x.Fun.(*ast.Ident); is && id.Name == "delete" && len(x.Args) == 2 {
+						if sel, is := x.Args[0].(*ast.SelectorExpr); is && sel.Sel.Name == "sent" && del == token.NoPos {
+							del = x.Pos()
+						}
+					}
+				case *ast.SendStmt:
+					if send == token.NoPos {
+						send = x.Pos()
+					}
+				}
+				return true
+			})
+			ok = del != token.NoPos && send != token.NoPos && del < send
+		}
+	}
+	g.p("\n(* ---- receipts.Handler.HandleMessage deletes the table entry before it signals the sender ---- *)\n")
+	g.p("Definition receipts_delete_precedes_send : bool := %v.\n", ok)
 }
 
 // c09Tables lists, for the listener table of the ibb handler (the map field
